@@ -315,18 +315,7 @@ class SInt:
 
     def __index__(self):
         # enumerate the feasible values one path at a time (complete when the domain is finite)
-        for _ in range(10000):
-            m = E.ENG.get_model()
-            if m is None:
-                raise E.Abort()
-            v = m.eval(self.z, model_completion=True).as_long()
-            E.ENG.stats["concretized"] += 1
-            if _branch(self.z == v):
-                return v
-            # this value is excluded on this path: a model that still proposes it is stale
-            if E.ENG.model is not None and z3.is_true(E.ENG.model.eval(self.z == v, model_completion=True)):
-                E.ENG.model = None
-        raise Unsupported("symbolic index with too many values")
+        return E.ENG.pick(self.z)
 
     def __int__(self):
         raise Unsupported("int() of symbolic int through the builtin (module global 'int' not rebound)")
